@@ -71,6 +71,8 @@ def _case(draw, tier):
         L["k"] = 1
     if form == "while" and not L["acc"] and not L["nested"] and L["k"] >= 2 and prob(draw, 0.3):
         L["entry"] = draw(st.integers(1, L["k"] - 1))
+    if L["entry"] != 0:
+        L["nullable"] = False  # the second carried value is seeded together with `i`; a mid-body entry supplies t_k instead
     if form in ("while", "dowhile", "signal") and L["limit_input"] and not L["nested"] and L["entry"] == 0 and prob(draw, 0.35):
         L["pre_entry"] = True
     return {
